@@ -264,8 +264,8 @@ PROPS["C17"] = {
     "verus": [],
     "kani": [],
     "level": "exploration",
-    "level_text": "BOUNDED STAND-IN ONLY, SEQUENTIAL CLAUSES ONLY - nothing is proved for this property, and its interleaving clause (an insert racing a drop and re-create) is not covered at all: Kani has no threads, and startup discovery / shard deletion are std::fs call sequences outside both verifiers. One real StorageEngine with two knowledge graphs of adversarially similar names (`a`, `a_b`; relations `b_c`, `c`: the shards `a:b_c` and `a_b:c` differ only in where the separator stands) is driven with [create both] + every history of length <= 3 (thorough 4) over 11 steps (create / drop each graph, four inserts, a rule registration, save, restart) + [restart] and compared after every step with the model graph -> (relation -> tuples, rules): a step on one graph never changes the other, and a dropped graph's data does not reappear after a restart or in a re-created graph of the same name.",
-    "level_note": "bounded, sequential only: 2 graphs x 2 relations, histories of <= 3 (thorough 4) steps between a fixed prefix and a final restart; concurrency (the property's interleaving clause) NOT covered; empty graphs are not compared (whether an empty graph survives a restart is outside C17)",
+    "level_text": "BOUNDED STAND-IN ONLY, SEQUENTIAL CLAUSES ONLY - nothing is proved for this property, and its interleaving clause (an insert racing a drop and re-create) is not covered at all: Kani has no threads, and startup discovery / shard deletion are std::fs call sequences outside both verifiers. One real StorageEngine with two knowledge graphs of adversarially similar names (`a`, `a_b`; relations `b_c`, `c`: the shards `a:b_c` and `a_b:c` differ only in where the separator stands) is driven with [create both] + every history of length <= 3 (thorough: + every 5th of length 4) over 11 steps (create / drop each graph, four inserts, a rule registration, save, restart) + [restart], each also run with the plain names `a`, `ab`, and compared after every step with the model graph -> (relation -> tuples, rules): a step on one graph never changes the other, and a dropped graph's data does not reappear after a restart or in a re-created graph of the same name.",
+    "level_note": "bounded, sequential only: 2 graphs x 2 relations, histories of <= 3 (thorough: sampled 4) steps between a fixed prefix and a final restart; concurrency (the property's interleaving clause) NOT covered; empty graphs are not compared (whether an empty graph survives a restart is outside C17)",
     "technique": "bounded stand-in tests on the real code (cargo test in a scratch copy of the working tree, module injected insert-only); the contract (state follows the per-graph history model) is evaluated on enumerated sequential histories; labelled bounded, never counted as proved; no deductive obligation exists for this property",
     "aux_failure": "violation",
     "functions_under_contract": [],
